@@ -100,35 +100,66 @@ SOURCE_TIES = {
               "the control structure of all 11 extern \"C\" functions of bindings/c/src/lib.rs (out-pointer writes, which parser on which text, "
               "match arms, error codes incl. the + 1, allocation and free) translated from the current source equals the handle-table model's "
               "step for that call (tools/gen_cbind.py -> coq/gen/CBindGen.v; proofs/CBindTie.v)"),
+    "brain": ("gen_brain.py", "proofs/BrainTie.vo",
+              "26 functions of src/isotopic_pattern/baffling.rs (vietes, the Newton / power-sum / elementary-symmetric updates, request resolution, "
+              "IsotopicConstants get/update, isotopic_coefficients, from_element, phi values, probability_vector, center_mass_vector and the peak-building "
+              "tail with the 1e-10 rule, charge conversion and sort) translated from the current source equal the corresponding definitions of Brain.v, "
+              "panics included, under stated integer-width side conditions (tools/gen_brain.py -> coq/gen/BrainGen.v; proofs/BrainTie.v)"),
 }
+
+
+TIES_MODE = {"gen_peak.py", "gen_espec.py", "gen_formula.py", "gen_comp.py", "gen_render.py", "gen_cbind.py", "gen_brain.py"}
 
 
 def source_tie(run, parts=("mz",)):
     """Regenerate the Gallina translation of the named source files from the CURRENT /repo and re-check in the kernel that the
-    hand-written models ARE those translations (for every numeric interpretation and all arguments).  Returns True when all are
-    established.  A refusal or a mismatch is not a violation by itself (a harmless rewrite can cause it): the differential
-    correspondence remains the tie and is then searched 5x deeper."""
+    hand-written models ARE those translations (for every numeric interpretation and all arguments).
+
+    Three outcomes per part:
+      established  -- translated and every tie lemma re-proved;
+      unavailable  -- the translator refused the file, or skipped functions that are now written outside its subset (a harmless
+                      rewrite does that): no information; the differential correspondence remains the tie (searched 5x deeper);
+      mismatch     -- the source WAS translated but a tie lemma no longer holds of it: the code no longer is the model.  The
+                      differential run is searched 5x deeper for a failing input; if none is found the check still reports
+                      `VIOLATION ... no-failing-input-found`, naming the lemma."""
     res = {}
     for k in parts:
         script, target, what = SOURCE_TIES[k]
         rc, out, _ = sh([sys.executable, os.path.join(VERIF, "tools", script)], cwd=VERIF, timeout=300)
         lines = [l for l in out.strip().splitlines() if l.strip()]
         detail = lines[-1] if lines else ""
-        ok = rc == 0 and "skipped " not in out.replace("0 skipped", "")
-        if rc == 0:
+        status, failed = "established", []
+        if rc == 3 or rc not in (0, 1):
+            status = "unavailable"
+        else:
             rc2, out2, _ = make([target])
             if rc2 != 0:
-                ok = False
-                detail = "%s no longer checks: " % target + "\n".join(out2.strip().splitlines()[-6:])
-        res[k] = {"established": ok, "what": what, "detail": detail[-600:]}
+                if script in TIES_MODE:
+                    rc3, out3, _ = sh([sys.executable, os.path.join(VERIF, "tools", script), "--ties"], cwd=VERIF, timeout=900)
+                    failed = re.findall(r"^tie (\S+): FAILED", out3, re.M)
+                    skipped = re.findall(r"^tie (\S+): SKIPPED", out3, re.M)
+                    status = "mismatch" if failed else "unavailable"
+                    detail = ("tie lemmas that no longer hold: %s" % ", ".join(failed)) if failed else ("skipped (outside the subset): %s" % ", ".join(skipped))
+                else:
+                    status = "mismatch"
+                    failed = [target]
+                    detail = "%s no longer checks: " % target + " ".join(out2.strip().splitlines()[-4:])
+        res[k] = {"established": status == "established", "status": status, "what": what, "detail": detail[-700:], "failed_ties": failed}
     run.cov.setdefault("source_level_tie", {}).update(res)
-    ok = all(r["established"] for r in res.values())
     for k, r in res.items():
         if r["established"]:
             run.oblige("source-level tie (%s): the model is the translation of the current source, regenerated and re-proved" % k, True, r["detail"])
-    if not ok and run.scale == 1:
-        raise ExtendSearch({"broken": "source-level tie", "detail": "; ".join(r["detail"] for r in res.values() if not r["established"])})
-    return ok
+    bad = {k: r for k, r in res.items() if not r["established"]}
+    if bad and run.scale == 1:
+        raise ExtendSearch({"broken": "source-level tie (%s)" % ", ".join("%s: %s" % (k, r["status"]) for k, r in bad.items()),
+                            "detail": "; ".join(r["detail"] for r in bad.values())})
+    mism = {k: r for k, r in res.items() if r["status"] == "mismatch"}
+    if mism:
+        run.tie_mismatch = getattr(run, "tie_mismatch", {})
+        run.tie_mismatch.update(mism)
+        for k, r in mism.items():
+            run.oblige("source-level tie (%s)" % k, False, r["detail"])
+    return not bad
 
 
 def ensure_makefile():
@@ -344,6 +375,14 @@ class Run:
         return [(n, d) for (n, ok, d) in self.obligations if not ok]
 
     def finish(self, violations=0):
+        mism = getattr(self, "tie_mismatch", None)
+        if violations == 0 and mism and not getattr(self, "_reporting_mismatch", False):
+            # the source was translated but is no longer the model, and the (extended) differential search found no failing
+            # input: the property is no longer shown to hold of this code
+            self._reporting_mismatch = True
+            violation(self, {"broken": "source-level tie: the current source translates, but a tie lemma no longer holds of it",
+                             "ties": {k: {"failed_ties": r["failed_ties"], "detail": r["detail"]} for k, r in mism.items()},
+                             "note": "the differential correspondence and the specification checks passed on every generated case"}, nofail=True)
         cov = dict(self.cov)
         cov["obligations"] = len(self.obligations)
         cov["discharged"] = sum(1 for o in self.obligations if o[1])
